@@ -1,6 +1,9 @@
 package main
 
 import (
+	"encoding/json"
+	"sort"
+	"runtime"
 	"bytes"
 	"context"
 	"fmt"
@@ -61,7 +64,20 @@ func raceUnsat(cfgs []solverCfg, scriptFor func(solverCfg) string, timeoutS int)
 	return out
 }
 
+// solverSlots bounds the number of solver processes running at once to the number of CPUs, so that a solver's
+// wall-clock timeout is not eaten by other solvers competing for the same core.
+var solverSlots = make(chan struct{}, runtime.NumCPU())
+
 func runSolverCtx(parent context.Context, sc solverCfg, script string, timeoutS int) solverRes {
+	select {
+	case solverSlots <- struct{}{}:
+		defer func() { <-solverSlots }()
+	case <-parent.Done():
+		return solverRes{solver: sc.name, status: "timeout"}
+	}
+	if parent.Err() != nil {
+		return solverRes{solver: sc.name, status: "timeout"}
+	}
 	ctx, cancel := context.WithTimeout(parent, time.Duration(timeoutS+5)*time.Second)
 	defer cancel()
 	cmd := exec.CommandContext(ctx, sc.bin, sc.args(timeoutS)...)
@@ -150,7 +166,16 @@ func decideWith(ob *Obligation, timeoutS int, all bool, dumpDir string, choice m
 		// pruned scripts first (sound: fewer hypotheses); a non-unsat answer is never trusted from a pruned script
 		full := vc.script(ob, scriptOpts{model: true, noPrune: true, choice: choice})
 		var prev string
-		for _, o := range []scriptOpts{{pruneAlloc: true, rounds: 2}, {pruneAlloc: true, rounds: 4}, {pruneAlloc: true, rounds: 8}, {pruneAlloc: true}, {}} {
+		levels := []scriptOpts{{pruneAlloc: true, rounds: 2}, {pruneAlloc: true, rounds: 4}, {pruneAlloc: true, rounds: 8}, {pruneAlloc: true}, {}}
+		// proof hints: the pruning level that worked last time is tried first (an optimisation only: every answer is
+		// still the solver's, and the full sequence follows when the hint does not work)
+		hkey := hintKey(ob, choice)
+		if h, ok := getHint(hkey); ok && h >= 0 && h < len(levels) {
+			levels = append([]scriptOpts{levels[h]}, levels...)
+		} else if ok && h == 5 {
+			levels = nil // last time only the complete script was decided
+		}
+		for li, o := range levels {
 			o.choice = choice
 			sc := vc.script(ob, o)
 			if sc == prev || len(sc) >= len(full) {
@@ -161,6 +186,13 @@ func decideWith(ob *Obligation, timeoutS int, all bool, dumpDir string, choice m
 			if t > 4 {
 				t = 4
 			}
+			if o.rounds == 2 || o.rounds == 4 {
+				// the proofs that succeed on a heavily pruned script do so within a second or two
+				if t > 2 {
+					t = 2
+				}
+			}
+			_ = li
 			if ob.Short && (o.rounds == 4 || o.rounds == 8) {
 				continue
 			}
@@ -181,6 +213,7 @@ func decideWith(ob *Obligation, timeoutS int, all bool, dumpDir string, choice m
 				ob.Status = "discharged"
 				ob.Solver = r.solver
 				ob.SMTSize = len(sc)
+				setHint(hkey, levelIndex(o))
 				if dumpDir != "" {
 					os.MkdirAll(dumpDir, 0o755)
 					os.WriteFile(filepath.Join(dumpDir, mangle(ob.Name)+".smt2"), []byte(sc), 0o644)
@@ -257,6 +290,7 @@ func decideWith(ob *Obligation, timeoutS int, all bool, dumpDir string, choice m
 			ob.Status = "cover-failed"
 		} else {
 			ob.Status = "discharged"
+			setHint(hintKey(ob, choice), 5)
 		}
 	case sat != nil:
 		ob.Solver = sat.solver
@@ -324,4 +358,91 @@ func parseModel(out string) map[string]string {
 		}
 	}
 	return m
+}
+
+// ---------------------------------------------------------------------------
+// proof hints (which pruning level discharged an obligation last time); a cache, never an input to a verdict
+
+var (
+	hintMu    sync.Mutex
+	hints     = map[string]int{}
+	hintsFile string
+	hintsDirty bool
+)
+
+func levelIndex(o scriptOpts) int {
+	switch {
+	case o.pruneAlloc && o.rounds == 2:
+		return 0
+	case o.pruneAlloc && o.rounds == 4:
+		return 1
+	case o.pruneAlloc && o.rounds == 8:
+		return 2
+	case o.pruneAlloc:
+		return 3
+	}
+	return 4
+}
+
+func hintKey(ob *Obligation, choice map[*Node]*Node) string {
+	k := ob.Name
+	if len(choice) > 0 {
+		var ids []string
+		for j, p := range choice {
+			ids = append(ids, fmt.Sprintf("%d<%d", j.ID, p.ID))
+		}
+		sort.Strings(ids)
+		k += "|" + strings.Join(ids, ",")
+	}
+	return k
+}
+
+func getHint(k string) (int, bool) {
+	hintMu.Lock()
+	defer hintMu.Unlock()
+	v, ok := hints[k]
+	return v, ok
+}
+
+func setHint(k string, v int) {
+	hintMu.Lock()
+	defer hintMu.Unlock()
+	if old, ok := hints[k]; !ok || old != v {
+		hints[k] = v
+		hintsDirty = true
+	}
+}
+
+func loadHints(file string) {
+	hintsFile = file
+	b, err := os.ReadFile(file)
+	if err != nil {
+		return
+	}
+	hintMu.Lock()
+	defer hintMu.Unlock()
+	json.Unmarshal(b, &hints)
+}
+
+func saveHints() {
+	hintMu.Lock()
+	defer hintMu.Unlock()
+	if hintsFile == "" || !hintsDirty {
+		return
+	}
+	// merge with what another run may have written meanwhile
+	if b, err := os.ReadFile(hintsFile); err == nil {
+		old := map[string]int{}
+		if json.Unmarshal(b, &old) == nil {
+			for k, v := range old {
+				if _, ok := hints[k]; !ok {
+					hints[k] = v
+				}
+			}
+		}
+	}
+	b, _ := json.Marshal(hints)
+	os.MkdirAll(filepath.Dir(hintsFile), 0o755)
+	os.WriteFile(hintsFile+".tmp", b, 0o644)
+	os.Rename(hintsFile+".tmp", hintsFile)
 }
